@@ -8,6 +8,7 @@ Monitors: the property statement on the real results (exact at centres, multilin
 range preserving, affine exact, periodic, outside raises or fills, linear approach to the BC value,
 amount conserved, compiled = interpreted)."""
 import itertools
+import json
 import math
 import time
 from fractions import Fraction
@@ -32,34 +33,70 @@ REQUIRED_THEOREMS = [
     "insert_conserves", "insert_conserves_compiled", "insert_conserves_compiled2", "insert_conserves_compiled3",
     "insert_conserves_compiled_ghost", "insert_conserves_compiled_ghost2",
     "insert_interpreted_eq_compiled", "insert_interpreted_eq_compiled2", "insert_interpreted_eq_compiled3",
+    # periodic seam VALUE in 2 and 3 axes
+    "periodic_seam_value2", "periodic_seam_both2", "periodic_seam_value3", "periodic_seam_all3",
+    # Props/C16Eps.lean: the real clipping constant 0 <= eps <= 1/2 (the driver evaluates eps = 1e-15)
+    "clipping_error", "clipping_error2", "clipping_error3",
+    "real_eps_of_exact", "real_eps_of_exact2", "real_eps_of_exact3",
+    "multilinear_between_centres_eps", "multilinear_between_centres2_eps", "multilinear_between_centres3_eps",
+    "exact_on_affine_eps", "exact_on_affine2_eps", "exact_on_affine3_eps",
+    "within_data_range_eps", "within_data_range2_eps", "within_data_range3_eps",
+    "periodic_seam_eps", "boundary_strip_nearest_eps", "ghost_mode_linear_to_bc_value_eps",
+    "ghost_mode_dirichlet_value_eps",
+    "insert_compiled_integral", "insert_compiled_integral2", "insert_compiled_integral3",
+    "insert_conserves_compiled_eps", "insert_conserves_compiled2_eps", "insert_conserves_compiled3_eps",
+    "insert_conserves_compiled_ghost_eps", "insert_conserves_compiled_ghost2_eps",
+    "insert_interpreted_eq_compiled_eps", "insert_interpreted_eq_compiled2_eps", "insert_interpreted_eq_compiled3_eps",
+    "driver_floor_instance_eq",
 ]
+EXTRA_PROP_FILES = ["C16Eps"]
 RULE = ("(a) lattice sweep: small dyadic Cartesian grids with 1 and 2 axes, every periodicity pattern, every point of "
         "a regular lattice of cell coordinates from 2 cells below to 1 cell above the domain (all integer / half-integer "
-        "ties, every branch), compared exactly; (b) random grids of every class (UnitGrid/CartesianGrid with 1-3 axes and every periodicity pattern, "
+        "ties, every branch, points exactly on the boundary included for the correspondence), compared exactly; "
+        "(b) random grids of every class (UnitGrid/CartesianGrid with 1-3 axes and every periodicity pattern, "
         "PolarSymGrid, SphericalSymGrid, CylindricalSymGrid, with and without inner hole, 1..7 cells per axis, "
-        "dyadic or generic bounds) carrying fields of rank 0-2 (random, dyadic, affine or constant data) and "
+        "dyadic or generic bounds) carrying fields of rank 0-2 (random, dyadic, affine or constant data; on every second "
+        "grid also complex data and integer data with and without an integer dtype) and "
         "points drawn by class (cell centres, faces, cell corners, bulk, boundary strips, domain corners, "
         "periodic seams, wrapped periodic images, near-integer ties, uniformly random, clearly outside by "
-        "1e-6 .. 10 cells; points within 1e-9 cells of a non-periodic domain boundary are never generated); one "
-        "case = (grid, field, operation, point); it is distinct by these and non-trivial if the field is not "
+        "1e-6 .. 10 cells; points within 1e-9 cells of a non-periodic domain boundary are not judged by the monitors); "
+        "boundary conditions (value / derivative per face, auto_periodic_*) with probe lines along the inward normal of "
+        "every face through a cell centre, through an arbitrary tangential position and through the corner squares "
+        "(a second non-periodic axis within half a cell of its boundary); target grids of interpolate_to_grid of the "
+        "same class (inside / equal / beyond) and Cartesian targets of curvilinear sources; a malformed stream (wrong "
+        "number of coordinates, NaN / inf coordinates) whose expected outcome is an error class; "
+        "one case = (grid, field, operation, point); it is distinct by these and non-trivial if the field is not "
         "constant and the expected outcome is a value (not an error / the fill value)")
 ASSUMPTIONS = [
-    "points within 1e-9 of the domain boundary are excluded (membership ill-conditioned, as the property says)",
+    "points within 1e-9 of the domain boundary are excluded from the monitors (membership ill-conditioned, as the "
+    "property says); on the dyadic lattice they are still compared with the model (exact arithmetic on both sides)",
     "float results are compared with the exact (Rat) model within 1e-10 of the natural scale "
     "(max |data|, resp. max|data| + |amount|/min cell volume); on dyadic grids with dyadic data exactly",
     "at a rounding tie (cell coordinate within 1e-9 of an integer) the index pair of get_axis_data may "
     "differ from the exact one; there the index->weight distribution is compared instead of the raw tuple "
     "(with numpy's negative-index wrap-around: for a cell coordinate in (-2^-53, 0) float divmod returns (-1, 1.0), "
     "i.e. index -1 with weight 0, or - single cell - index -1 = that cell)",
-    "boundary-condition ghost cells are produced by the real set_ghost_cells (property C02); the model "
-    "receives the resulting full array",
-    "theorems are stated for the clipping constant eps <= 0 (clipping inert, exact arithmetic); the effect of "
-    "eps = 1e-15 is bounded by clip_close / weights_clipped and replicated exactly by the Rat model",
+    "the ghost cells behind a face are what the imposed condition defines (value v: 2v - cell, outward derivative d: "
+    "cell + d dx; the defining equations themselves are property C02), edge / corner ghost cells are what "
+    "set_ghost_cells(set_corners=True) documents (mean of the adjacent ghost cells): the harness builds this padded "
+    "array itself, feeds it to the model and compares the real interpolation with it; the ghost layer of the real "
+    "field is filled with NaN before every call",
+    "compiled against interpreted: relative 1e-12 of the scale of the data (the compiler may reorder floating-point "
+    "operations)",
 ]
 TRUSTED_EXTRA = ["numpy divmod/astype/choose/ndindex semantics as read from the source (validated by the correspondence)"]
 
 EPS = 1e-15
 TOL = 1e-10
+
+# Narrow key of the one clause the unchanged library does not meet (see notes/C16.md, "corner squares"): with
+# `set_corners=True` the ghost cell in a corner / on an edge of the padded array is DEFINED as the mean of the
+# adjacent ghost cells; where two non-periodic axes are both within half a cell of their boundary the bc-mode
+# interpolant then neither reaches the imposed value on the face nor keeps the imposed slope.  The key is only
+# attached when (1) the real value equals the interpolant of the independently padded reference (the code does
+# what it documents) and (2) the point lies in such a corner square.
+KNOWN_CORNER = {"site": "BoundariesList.set_ghost_cells(set_corners=True)", "region": "corner-square",
+                "symptom": "imposed-condition-not-met"}
 
 
 # ==========================================================================================
@@ -336,6 +373,107 @@ def ref_interp(axes, comps, p):
     return out
 
 
+def pad_reference(axes, comps, sides):
+    """independent definition of the padded arrays `interpolate(bc=..)` works on (one numpy array per component):
+    valid cells = the data; ghost cell behind a face = what the imposed condition defines (value v: `2 v - cell`,
+    outward derivative d: `cell + d dx`, periodic: the cell at the other end); ghost cells on edges / in corners as
+    `BoundariesList.set_ghost_cells(set_corners=True)` documents them: 2 axes - the mean of the two adjacent ghost
+    cells; 3 axes - edges the mean of the two adjacent face ghost cells, corners the mean of the three adjacent edge
+    cells.  Everything else stays NaN (nothing else exists)."""
+    shape = [a[0] for a in axes]
+    d = len(shape)
+    out = []
+    for comp in comps:
+        full = np.full([n + 2 for n in shape], np.nan)
+        full[tuple(slice(1, -1) for _ in shape)] = np.array(comp, dtype=float).reshape(shape)
+        for k, (n, per, _lo, dx) in enumerate(axes):
+            def sl(i, k=k):
+                return tuple(i if a == k else slice(1, -1) for a in range(d))
+            if per:
+                full[sl(0)] = full[sl(n)]
+                full[sl(n + 1)] = full[sl(1)]
+                continue
+            for upper in (False, True):
+                kind, c = sides[k][1 if upper else 0]
+                cell = full[sl(n if upper else 1)]
+                full[sl(n + 1 if upper else 0)] = (2 * c - cell) if kind == "value" else (cell + c * dx)
+        nxt = {0: 1, -1: -2}
+        ends = list(itertools.product([0, -1], repeat=2))
+        if d == 2:
+            for i, j in ends:
+                full[i, j] = (full[nxt[i], j] + full[i, nxt[j]]) / 2
+        elif d == 3:
+            for i, j in ends:
+                full[1:-1, i, j] = (full[1:-1, nxt[i], j] + full[1:-1, i, nxt[j]]) / 2
+                full[i, 1:-1, j] = (full[nxt[i], 1:-1, j] + full[i, 1:-1, nxt[j]]) / 2
+                full[i, j, 1:-1] = (full[nxt[i], j, 1:-1] + full[i, nxt[j], 1:-1]) / 2
+            for i, j, k in itertools.product([0, -1], repeat=3):
+                full[i, j, k] = (full[nxt[i], j, k] + full[i, nxt[j], k] + full[i, j, nxt[k]]) / 3
+        out.append(full)
+    return out
+
+
+def ref_interp_ghost(axes, fulls, p):
+    """reference interpolation with boundary conditions: the multilinear interpolant of the padded arrays `fulls`
+    (index i+1 = cell i); non-periodic axes are interpolated up to the faces (cell coordinate -0.5 .. n-0.5) using
+    the ghost layer, periodic axes wrap and never touch it; None outside"""
+    sup = []
+    for (n, periodic, lo, dx), c in zip(axes, p):
+        x = (c - lo) / dx - 0.5
+        i = math.floor(x)
+        t = x - i
+        if periodic:
+            sup.append([(i % n + 1, 1 - t), ((i + 1) % n + 1, t)])
+        elif x < -0.5 or x > n - 0.5:
+            return None
+        else:
+            sup.append([(i + 1, 1 - t), (i + 2, t)])
+    out = [0.0] * len(fulls)
+    for combo in itertools.product(*sup):
+        w = 1.0
+        for _i, wi in combo:
+            w *= wi
+        if w == 0.0:
+            continue
+        idx = tuple(i for i, _w in combo)
+        for k, full in enumerate(fulls):
+            out[k] += w * float(full[idx])
+    return out
+
+
+def strip_axes(axes, p):
+    """the non-periodic axes on which the point lies within half a cell of the boundary: [(axis, upper)]"""
+    out = []
+    for k, ((n, periodic, lo, dx), c) in enumerate(zip(axes, p)):
+        if periodic:
+            continue
+        x = (c - lo) / dx - 0.5
+        if x < 0:
+            out.append((k, False))
+        elif x > n - 1:
+            out.append((k, True))
+    return out
+
+
+def readable_ghost_cells(axes):
+    """index tuples of the padded array outside the valid block which the ghost-mode interpolator can read:
+    ghost index on non-periodic axes only"""
+    shape = [a[0] for a in axes]
+    for idx in itertools.product(*[range(n + 2) for n in shape]):
+        g = [k for k, (i, n) in enumerate(zip(idx, shape)) if i in (0, n + 1)]
+        if g and all(not axes[k][1] for k in g):
+            yield idx
+
+
+def witness_point(axes, idx):
+    """a point inside the domain whose bc-mode interpolant reads the padded cell `idx` with weight >= 4^-axes:
+    a quarter cell inside the face for a ghost index, the cell centre for a valid index"""
+    xs = []
+    for (n, _per, _lo, _dx), i in zip(axes, idx):
+        xs.append(-0.25 if i == 0 else (n - 0.75 if i == n + 1 else float(i - 1)))
+    return [a[2] + (x + 0.5) * a[3] for x, a in zip(xs, axes)]
+
+
 # ==========================================================================================
 # boundary conditions (ghost-cell mode)
 # ==========================================================================================
@@ -368,20 +506,46 @@ def gen_bc(rng, gs, axes, dyadic):
     return bc, sides
 
 
-def gen_bc_probes(rng, axes, sides):
-    """points on the inward normal of a boundary face through a tangential cell centre:
-    [(p, axis, upper, t, tangential cell index)] with t in (0,1] = distance from the face in half cells"""
+def probe_point(axes, tang, axis, upper, t):
+    """the point at distance `t` half cells from the face (axis, upper) on its inward normal; `tang` = cell
+    coordinates of the foot point (the entry of `axis` is ignored)"""
+    xs = list(tang)
+    xs[axis] = (axes[axis][0] - 0.5 - 0.5 * t) if upper else (-0.5 + 0.5 * t)
+    return [a[2] + (x + 0.5) * a[3] for x, a in zip(xs, axes)]
+
+
+def gen_bc_probes(rng, axes, sides, dyadic=False):
+    """lines on the inward normal of boundary faces, sampled at t = distance from the face in half cells
+    (t = 1: the first / last layer of cell centres):
+      'centre' - through a tangential cell centre (every face),
+      'any'    - tangential position anywhere inside the domain (between centres, in the strips of other axes),
+      'corner' - tangential position within half a cell of the boundary of a second non-periodic axis (the corner
+                 squares / edge bars, where ghost cells set by `set_corners` are read).
+    -> [{"p", "axis", "upper", "t", "tang", "cls", "line"}]"""
     probes = []
-    for k, s in enumerate(sides):
-        if s is None:
-            continue
+    line = [0]
+
+    def add(k, upper, tang, cls, ts):
+        line[0] += 1
+        for t in ts:
+            probes.append({"p": probe_point(axes, tang, k, upper, t), "axis": k, "upper": upper, "t": t,
+                           "tang": [float(x) for x in tang], "cls": cls, "line": line[0]})
+
+    nonper = [k for k, s in enumerate(sides) if s is not None]
+    for k in nonper:
         for upper in (False, True):
-            idx = [rng.randrange(a[0]) for a in axes]
-            for t in [1e-6, 0.25, 0.5, 1.0, rng.uniform(0.01, 0.99)]:
-                xs = [float(i) for i in idx]
-                xs[k] = (axes[k][0] - 0.5 - 0.5 * t) if upper else (-0.5 + 0.5 * t)
-                p = [a[2] + (x + 0.5) * a[3] for x, a in zip(xs, axes)]
-                probes.append((p, k, upper, t, idx))
+            add(k, upper, [float(rng.randrange(a[0])) for a in axes], "centre",
+                [1e-6, 0.25, 0.5, 1.0, rng.uniform(0.01, 0.99)])
+    if nonper and len(axes) > 1:
+        k = rng.choice(nonper)
+        tang = [axis_x(rng, rng.choice(INSIDE_KINDS), a[0], a[1], dyadic)[0] for a in axes]
+        add(k, rng.random() < 0.5, tang, "any", [1e-6, 0.5, 1.0, rng.uniform(0.01, 0.99)])
+    if len(nonper) >= 2:
+        for _ in range(2):
+            k, j = rng.sample(nonper, 2)
+            tang = [axis_x(rng, rng.choice(INSIDE_KINDS), a[0], a[1], dyadic)[0] for a in axes]
+            tang[j] = axis_x(rng, rng.choice(["strip_lo", "strip_hi"]), axes[j][0], False, dyadic)[0]
+            add(k, rng.random() < 0.5, tang, "corner", [1e-6, 0.5, 1.0, rng.uniform(0.01, 0.99)])
     return probes
 
 
@@ -393,7 +557,24 @@ def _err(e):
 
 
 def _vals(a):
-    return [float(x) for x in np.asarray(a, dtype=float).reshape(-1)]
+    """flat list of floats; a complex or object result where a real one is due is an error, never cast away"""
+    a = np.asarray(a)
+    if a.dtype.kind not in "fiub":
+        raise TypeError(f"result of dtype {a.dtype} where real numbers are due")
+    return [float(x) for x in a.reshape(-1)]
+
+
+def _cvals(a):
+    """flat list of [re, im]"""
+    return [[float(np.real(x)), float(np.imag(x))] for x in np.asarray(a).reshape(-1)]
+
+
+def _poison_ghost_cells(f):
+    """NaN in every ghost cell of the field (valid data untouched): a ghost cell the code does not set before
+    it interpolates is then visible deterministically, not only when stale memory happens to be non-finite"""
+    valid = np.array(f.data, copy=True)
+    f._data_full[...] = np.nan
+    f.data = valid
 
 
 def work(spec):
@@ -401,6 +582,9 @@ def work(spec):
     import warnings
 
     warnings.simplefilter("ignore")
+    cw = getattr(getattr(np, "exceptions", np), "ComplexWarning", None)
+    if cw is not None:
+        warnings.simplefilter("error", cw)  # never drop an imaginary part silently
     import pde
     from pde.backends.numba import numba_backend
     from pde.backends.numba.grids import make_interpolation_axis_data, make_single_interpolator
@@ -439,7 +623,7 @@ def work(spec):
 
     if "interp_fill" in ops:  # no bc, fill given: one batched call
         try:
-            v = np.asarray(f.interpolate(np.array(pts, dtype=float).reshape(len(pts), g.num_axes), fill=fill), dtype=float)
+            v = np.asarray(f.interpolate(np.array(pts, dtype=float).reshape(len(pts), g.num_axes), fill=fill))
             out["interp_fill"] = [_vals(v[..., i]) for i in range(len(pts))] if v.shape == f.data_shape + (len(pts),) \
                 else "ERR:shape" + str(v.shape)
         except Exception as e:  # noqa: BLE001
@@ -457,20 +641,22 @@ def work(spec):
         out["single_cc"] = r
 
     if "interp_bc" in ops:  # ghost-cell mode
-        allp = pts + [pr[0] for pr in spec.get("probes", [])]
+        allp = pts + [pr["p"] for pr in spec.get("probes", [])]
         r = {}
         for with_fill in spec.get("bc_fills", [False, True]):
             try:
                 if not with_fill:
                     vals = []
                     for p in allp:
+                        _poison_ghost_cells(f)
                         try:
                             vals.append(_vals(f.interpolate(np.array(p, dtype=float), bc=spec["bc"])))
                         except Exception as e:  # noqa: BLE001
                             vals.append(_err(e))
                 else:
+                    _poison_ghost_cells(f)
                     v = np.asarray(f.interpolate(np.array(allp, dtype=float).reshape(len(allp), g.num_axes),
-                                                 bc=spec["bc"], fill=fill), dtype=float)
+                                                 bc=spec["bc"], fill=fill))
                     vals = [_vals(v[..., i]) for i in range(len(allp))]
             except Exception as e:  # noqa: BLE001
                 vals = _err(e)
@@ -498,6 +684,8 @@ def work(spec):
             if name != "nofill" and fill is None:
                 continue
             try:
+                if name == "bc":
+                    _poison_ghost_cells(f)
                 res = f.interpolate_to_grid(g2, **kw)
                 r[name] = _vals(res.data) if res.grid is g2 or res.grid == g2 else "ERR:grid"
             except Exception as e:  # noqa: BLE001
@@ -507,6 +695,93 @@ def work(spec):
                 out["to_grid_full"] = [_vals(full)]
                 out["full_shape"] = [int(n) for n in full.shape]
         out["to_grid"] = r
+
+    if "malformed" in ops:  # malformed points on the public entry points: the outcome must be an error class
+        r = []
+        for item in spec["malformed"]:
+            pt = np.array(item["point"], dtype=float)
+            o = {}
+            for name, kw in (("interp", {}), ("interp_fill", {"fill": fill}), ("interp_bc", {"bc": spec["bc"]})):
+                try:
+                    o[name] = _vals(f.interpolate(pt, **kw))
+                except Exception as e:  # noqa: BLE001
+                    o[name] = _err(e)
+            _, f2 = build_field(gs, fs)
+            try:
+                f2.insert(pt, 1.0 if not fs["rank"] else np.ones(f2.data_shape))
+                o["insert"] = _vals(f2.data)
+            except Exception as e:  # noqa: BLE001
+                o["insert"] = _err(e)
+            r.append(o)
+        out["malformed"] = r
+
+    if "cplx" in ops:  # complex data: real and imaginary part are interpolated / inserted independently
+        im = np.array(spec["imag"], dtype=float).reshape(f.data.shape)
+        fc = field_class(fs["rank"])(g, f.data + 1j * im)
+        cfill = complex(fill, -0.5 * fill - 1.0)
+        o = {"dtype": str(fc.data.dtype), "fill": [cfill.real, cfill.imag]}
+        cpts = pts[:spec.get("cplx_points", len(pts))]
+        r = []
+        for p in cpts:
+            try:
+                r.append(_cvals(fc.interpolate(np.array(p, dtype=float))))
+            except Exception as e:  # noqa: BLE001
+                r.append(_err(e))
+        o["interp"] = r
+        if not spec.get("jit"):
+            try:
+                v = np.asarray(fc.interpolate(np.array(cpts, dtype=float).reshape(len(cpts), g.num_axes), fill=cfill))
+                o["interp_fill"] = [_cvals(v[..., i]) for i in range(len(cpts))]
+            except Exception as e:  # noqa: BLE001
+                o["interp_fill"] = _err(e)
+        cins = numba_backend.make_inserter(g)
+        r = []
+        for p, amount in spec["inserts"][:3]:
+            item = {}
+            for which in ("interp", "comp"):
+                fc2 = fc.copy()
+                am = np.array(amount, dtype=float) * (1 - 0.5j)
+                am = am.reshape(fc2.data_shape) if fs["rank"] else complex(am[0])
+                ib = _cvals(fc2.integral)
+                try:
+                    if which == "interp":
+                        fc2.insert(np.array(p, dtype=float), am)
+                    else:
+                        cins(fc2.data, np.array(p, dtype=float), am)
+                    item[which] = {"after": _cvals(fc2.data), "int_before": ib, "int_after": _cvals(fc2.integral)}
+                except Exception as e:  # noqa: BLE001
+                    item[which] = _err(e)
+            r.append(item)
+        o["insert"] = r
+        out["cplx"] = o
+
+    if "intdata" in ops:  # integer-valued data, handed over as an integer array (converted to float by the
+        # field) and with an explicit integer dtype (kept): the interpolant is the same real number either way
+        idata = np.array(spec["ints"], dtype=int).reshape(f.data.shape)
+        o = {}
+        ipts = pts[:spec.get("cplx_points", len(pts))]
+        for name, kw in (("converted", {}), ("int", {"dtype": int})):
+            try:
+                fi = field_class(fs["rank"])(g, idata, **kw)
+                o[name + "_dtype"] = str(fi.data.dtype)
+                r = []
+                for p in ipts:
+                    try:
+                        v = np.asarray(fi.interpolate(np.array(p, dtype=float)))
+                        o[name + "_result_kind"] = v.dtype.kind
+                        r.append(_vals(v))
+                    except Exception as e:  # noqa: BLE001
+                        r.append(_err(e))
+                o[name] = r
+                if not spec.get("jit"):
+                    try:
+                        v = np.asarray(fi.interpolate(np.array(ipts, dtype=float).reshape(len(ipts), g.num_axes), fill=fill))
+                        o[name + "_fill"] = [_vals(v[..., i]) for i in range(len(ipts))]
+                    except Exception as e:  # noqa: BLE001
+                        o[name + "_fill"] = _err(e)
+            except Exception as e:  # noqa: BLE001
+                o[name] = _err(e)
+        out["intdata"] = o
 
     def do_inserts(which):
         r = []
@@ -585,7 +860,7 @@ def distribution(t, n_arr, tol=1e-9):
         if -n_arr <= i < 0:
             i += n_arr
         d[i] = d.get(i, 0.0) + float(w)
-    return {i: w for i, w in d.items() if abs(w) > tol}
+    return {i: w for i, w in d.items() if not (abs(w) <= tol)}  # a NaN weight is kept (and then differs)
 
 
 def same_axis(model, real, exact, n_arr):
@@ -626,7 +901,21 @@ def same_vals(model, real, scale, exact):
 # ==========================================================================================
 # case generation
 # ==========================================================================================
-def gen_case(rng, kind=None, jit=False):
+def gen_malformed(rng, axes):
+    """malformed points: wrong number of coordinates, NaN / infinite coordinates"""
+    d = len(axes)
+    inside = [a[2] + a[3] * a[0] / 2 for a in axes]
+    items = [{"kind": "too_long", "point": inside + [0.5]},
+             {"kind": "too_short", "point": inside[:-1]}]
+    k = rng.randrange(d)
+    for bad in (float("nan"), float("inf"), float("-inf")):
+        pt = list(inside)
+        pt[k] = bad
+        items.append({"kind": "nonfinite", "axis": k, "periodic": axes[k][1], "point": pt})
+    return items
+
+
+def gen_case(rng, kind=None, jit=False, index=0):
     gs = gen_grid(rng, kind)
     axes = grid_axes(gs)
     fs = gen_field(rng, gs, axes)
@@ -645,7 +934,7 @@ def gen_case(rng, kind=None, jit=False):
         meta.append({"cls": cls, "xs": xs, "where": where, "kinds": used})
     fill = rng.choice([0.0, -1.0, 7.5, 42.0])
     bc, sides = gen_bc(rng, gs, axes, dyadic)
-    probes = gen_bc_probes(rng, axes, sides)
+    probes = gen_bc_probes(rng, axes, sides, dyadic)
     # cell-coordinate points for make_single_interpolator(cell_coords=True)
     cell_points = [m["xs"] for m in meta]
     # inserts: interior points mostly, some outside (error class), amounts per component
@@ -658,15 +947,28 @@ def gen_case(rng, kind=None, jit=False):
         inserts.append((p, am))
     spec = {"grid": gs, "field": fs, "points": pts, "fill": fill, "bc": bc, "probes": probes,
             "cell_points": cell_points, "inserts": inserts}
+    ncell = len(fs["comps"][0])
     if jit:
         # every compiled function costs seconds: one plain interpolator, one ghost-cell interpolator, one inserter
+        # (alternating between the plain and the ghost-cell inserter so that both are compiled on every grid kind)
         spec["jit"] = True
         spec["ops"] = [rng.choice(["interp", "interp_fill"]), "interp_bc", "insert",
-                       rng.choice(["insert_comp", "insert_comp", "insert_comp_ghost"])]
+                       "insert_comp_ghost" if index % 2 else "insert_comp"]
         spec["bc_fills"] = [rng.random() < 0.5]
+        if index % 4 == 0:  # complex / integer data compile further specialisations: a subset only
+            spec["ops"] += ["cplx", "intdata"]
+            spec["cplx_points"] = 5
     else:
         spec["ops"] = ["axis", "interp", "interp_fill", "single_cc", "interp_bc", "insert", "insert_comp",
-                       "insert_comp_ghost"]
+                       "insert_comp_ghost", "malformed"]
+        spec["malformed"] = gen_malformed(rng, axes)
+        if index % 2 == 0:
+            spec["ops"] += ["cplx", "intdata"]
+            spec["cplx_points"] = 8
+    if "cplx" in spec["ops"]:
+        spec["imag"] = [[(rng.randint(-40, 40) / 4) if dyadic else rng.uniform(-5, 5) for _ in range(ncell)]
+                        for _ in range(ncomp)]
+        spec["ints"] = [[rng.randint(-9, 9) for _ in range(ncell)] for _ in range(ncomp)]
     if fs["rank"] == 0 and rng.random() < 0.6:
         g2 = gen_grid2(rng, gs)
         if g2 is not None:
@@ -702,9 +1004,9 @@ def lattice_cases(rng, thorough):
             pts, meta = [], []
             for xs in itertools.product(*per_axis):
                 p = [a[2] + (x + 0.5) * a[3] for x, a in zip(xs, axes)]
+                # points exactly on the domain boundary stay in the sweep: all numbers are dyadic, so model and
+                # code must agree exactly there too (correspondence legs); the monitors skip them (`boundary`)
                 where = classify(axes, p)
-                if where == "boundary":
-                    continue
                 pts.append(p)
                 meta.append({"cls": "lattice", "xs": list(xs), "where": where,
                              "kinds": [axis_kind(a[0], x) for a, x in zip(axes, xs)]})
@@ -718,7 +1020,8 @@ def lattice_cases(rng, thorough):
 
 
 def gen_grid2(rng, gs):
-    """target grid for interpolate_to_grid: same class, other shape, bounds inside / overlapping / beyond"""
+    """target grid for interpolate_to_grid: same class, other shape, bounds inside / overlapping / beyond; for the
+    curvilinear classes also a Cartesian target of the same dimension (the route through `grid.transform`)"""
     g2 = dict(gs)
     mode = rng.choice(["inside", "same", "beyond"])
     g2["shape"] = [rng.choice([1, 2, 3, 4, 5]) for _ in gs["shape"]]
@@ -744,6 +1047,15 @@ def gen_grid2(rng, gs):
         g2["bounds"] = [sub(lo, hi) for lo, hi in gs["bounds"]]
         g2["periodic"] = [False] * len(gs["shape"])
         return g2
+    if rng.random() < 0.4:  # Cartesian target for a polar / spherical / cylindrical source
+        dim = grid_dim(gs)
+        R = gs["radius"][1]
+        ext = R * rng.choice([0.5, 0.7, 1.0, 1.5])  # 0.7: the square / cube inscribed in the disk / ball
+        bounds = [[-ext, ext] for _ in range(dim)]
+        if c == "CylindricalSymGrid":
+            bounds[2] = sub(*gs["bounds_z"])
+        return {"cls": "CartesianGrid", "shape": [rng.choice([1, 2, 3]) for _ in range(dim)], "bounds": bounds,
+                "periodic": [False] * dim, "dyadic": False}
     if c in ("PolarSymGrid", "SphericalSymGrid"):
         lo, hi = sub(*gs["radius"])
         g2["radius"] = [max(lo, 0.0), hi]
@@ -753,6 +1065,24 @@ def gen_grid2(rng, gs):
     g2["bounds_z"] = sub(*gs["bounds_z"])
     g2["periodic"] = [False, False]
     return g2
+
+
+def target_points(gs, gs2):
+    """the centres of the cells of the target grid in the coordinates of the source grid, computed from the
+    grid descriptions alone (Cartesian target of a curvilinear source: r = |x|, resp. (|(x, y)|, z))"""
+    ax2 = grid_axes(gs2)
+    centres = [[lo + (i + 0.5) * dx for i in range(n)] for n, _per, lo, dx in ax2]
+    out = []
+    for c in itertools.product(*centres):
+        if gs2["cls"] == "CartesianGrid" and gs["cls"] == "PolarSymGrid":
+            out.append([math.hypot(c[0], c[1])])
+        elif gs2["cls"] == "CartesianGrid" and gs["cls"] == "SphericalSymGrid":
+            out.append([math.sqrt(c[0] ** 2 + c[1] ** 2 + c[2] ** 2)])
+        elif gs2["cls"] == "CartesianGrid" and gs["cls"] == "CylindricalSymGrid":
+            out.append([math.hypot(c[0], c[1]), c[2]])
+        else:
+            out.append(list(c))
+    return out
 
 
 # ==========================================================================================
@@ -846,6 +1176,9 @@ def evaluate(ctx, ev, spec, axes, meta, sides, res):
         """property monitors for one point of the plain (no bc) interpolation"""
         m, p = meta[k], pts[k]
         case = small_case(spec, leg, point=p, cls=m["cls"], fill=spec["fill"] if with_fill else None)
+        if m["where"] == "boundary":
+            ctx.hist("outcome", "on the boundary (correspondence only)")
+            return
         ctx.monitor_evals += 1
         ref = ref_interp(axes, comps, p)
         if m["where"] == "outside":
@@ -876,7 +1209,7 @@ def evaluate(ctx, ev, spec, axes, meta, sides, res):
             ctx.monitor_fail(leg, case, real, ref, what, key={"op": leg, "cls": m["cls"]})
             return
         for c, r in zip(comps, real):
-            if r < min(c) - tol or r > max(c) + tol:
+            if not (min(c) - tol <= r <= max(c) + tol):
                 ctx.monitor_fail(leg, case, r, [min(c), max(c)], "interpolated value outside the range of the data",
                                  key={"op": leg, "cls": m["cls"]})
                 return
@@ -936,18 +1269,31 @@ def evaluate(ctx, ev, spec, axes, meta, sides, res):
     # ---------------- interpolate with bc (ghost-cell mode) ---------------------------------
     if "interp_bc" in res:
         probes = spec["probes"]
-        allp = pts + [pr[0] for pr in probes]
-        full, fshape = res["data_full"], res["full_shape"]
-        if not all(math.isfinite(v) for c in full for v in c):
-            # the real code left ghost cells (e.g. corners) undefined although data and conditions are finite:
-            # the interpolant near them is then not determined by the data and the imposed boundary values
+        allp = pts + [pr["p"] for pr in probes]
+        # the padded arrays as the data and the imposed conditions DEFINE them (independent of the real ghost cells)
+        refpad = pad_reference(axes, comps, sides)
+        fshape = [n + 2 for n in shape]
+        if res["full_shape"] != fshape:
+            ctx.disagree("interp_bc", small_case(spec, "interp_bc", bc=spec["bc"]), fshape, res["full_shape"],
+                         "shape of the padded array")
+        fscale = scale_of([[float(v) for v in a.reshape(-1) if math.isfinite(v)] for a in refpad], spec["fill"] or 0.0)
+        btol = TOL * fscale
+        # every ghost cell the interpolator can read must hold the value the conditions define: judged on the
+        # interpolant at a witness point inside the domain that reads this cell (re-run by the replay)
+        real_full = [np.array(c, dtype=float).reshape(res["full_shape"]) for c in res["data_full"]] \
+            if res["full_shape"] == fshape else []
+        for c, (rf, pf) in enumerate(zip(real_full, refpad)):
             ctx.monitor_evals += 1
-            ctx.monitor_fail("interp_bc", small_case(spec, "interp_bc", bc=spec["bc"]),
-                             "non-finite ghost cells after interpolate(bc=..)", "all ghost cells set from the conditions",
-                             "interpolation with bc must use ghost cells (incl. corners) set from the imposed conditions",
-                             key={"op": "interp_bc", "what": "undefined ghost cells"})
-            full = [[v if math.isfinite(v) else 0.0 for v in c] for c in full]
-        fscale = scale_of(full, spec["fill"] or 0.0)
+            for idx in readable_ghost_cells(axes):
+                if far(rf[idx] - pf[idx], btol):
+                    ctx.monitor_fail("interp_bc", small_case(spec, "interp_bc", bc=spec["bc"], point=witness_point(axes, idx),
+                                                             ghost_cell=list(idx), component=c),
+                                     float(rf[idx]), float(pf[idx]),
+                                     "ghost cell read by interpolate(bc=..) is not what the imposed conditions define "
+                                     "(faces from the condition, edges / corners the mean of the adjacent ghost cells)",
+                                     key={"op": "interp_bc", "symptom": "ghost-cell-value", "ghost_axes": str(sum(
+                                         1 for i, n in zip(idx, shape) if i in (0, n + 1)))})
+                    break
         for with_fill in (False, True):
             if with_fill not in res["interp_bc"]:
                 continue
@@ -956,55 +1302,103 @@ def evaluate(ctx, ev, spec, axes, meta, sides, res):
             if isinstance(real_all, str):
                 ctx.disagree(leg, small_case(spec, leg, bc=spec["bc"]), "values", real_all, "interpolate(bc=..) failed")
                 continue
+            matches_ref = {}
             for k in range(len(allp)):
-                inside = classify(axes, allp[k]) == "inside"
-                ctx.count(count_key(spec, leg, point=allp[k], bc=spec["bc"]),
+                p = allp[k]
+                where = meta[k]["where"] if k < len(pts) else classify(axes, p)
+                inside = where == "inside"
+                ctx.count(count_key(spec, leg, point=p, bc=spec["bc"]),
                           nontrivial=nontrivial_field and inside, leg=f"{leg}/{mode}")
-                # monitor: outside raises / fills also in ghost mode
-                if k < len(pts):
-                    ctx.monitor_evals += 1
-                    rv = real_all[k]
-                    if meta[k]["where"] == "outside":
-                        ok = (all(v == spec["fill"] for v in rv) if not isinstance(rv, str) else False) if with_fill \
-                            else rv == "ERR:DomainError"
-                        if not ok:
-                            ctx.monitor_fail(leg, small_case(spec, leg, point=allp[k], bc=spec["bc"],
-                                                             fill=spec["fill"] if with_fill else None),
-                                             rv, "DomainError / fill", "point clearly outside the domain must raise or "
-                                             "return the fill value (bc mode)", key={"op": leg})
-                    elif isinstance(rv, str):
-                        ctx.monitor_fail(leg, small_case(spec, leg, point=allp[k], bc=spec["bc"]), rv, "a value",
-                                         "point inside the domain must be interpolated (bc mode)", key={"op": leg})
-                    else:
-                        # away from non-periodic boundaries the bc must not matter
-                        if all(a[1] or (0 <= x <= a[0] - 1) for a, x in zip(axes, meta[k]["xs"])):
-                            ref = ref_interp(axes, comps, allp[k])
-                            if ref is not None and any(far(r - e, TOL * scale) for r, e in zip(rv, ref)):
-                                ctx.monitor_fail(leg, small_case(spec, leg, point=allp[k], bc=spec["bc"]), rv, ref,
-                                                 "bc changes the interpolant between cell centres", key={"op": leg})
-            # monitor: linear approach to the imposed boundary value / derivative
-            for j, (p, ax, upper, t, idx) in enumerate(probes):
-                rv = real_all[len(pts) + j]
+                if where == "boundary":
+                    continue
+                pcase = small_case(spec, leg, point=p, bc=spec["bc"], fill=spec["fill"] if with_fill else None)
                 ctx.monitor_evals += 1
+                rv = real_all[k]
+                if where == "outside":  # outside raises / fills also in ghost mode
+                    ok = (all(v == spec["fill"] for v in rv) if not isinstance(rv, str) else False) if with_fill \
+                        else rv == "ERR:DomainError"
+                    if not ok:
+                        ctx.monitor_fail(leg, pcase, rv, "DomainError / fill", "point clearly outside the domain must raise "
+                                         "or return the fill value (bc mode)", key={"op": leg})
+                    continue
+                if isinstance(rv, str):
+                    ctx.monitor_fail(leg, pcase, rv, "a value",
+                                     "point inside the domain must be interpolated (bc mode)", key={"op": leg})
+                    continue
+                strips = strip_axes(axes, p)
+                ctx.hist("bc_region", {0: "between centres", 1: "face strip", 2: "corner square / edge bar",
+                                       3: "corner cube"}[len(strips)])
+                # (1) the multilinear interpolant of the data extended by the ghost cells the conditions define
+                refv = ref_interp_ghost(axes, refpad, p)
+                if refv is None or any(far(r - e, btol) for r, e in zip(rv, refv)):
+                    ctx.monitor_fail(leg, pcase, rv, refv, "interpolation with bc differs from the multilinear interpolant "
+                                     "of the data extended by the ghost cells which the imposed conditions define",
+                                     key={"op": leg, "symptom": "ghost-cell-interpolant", "ghost_axes": str(len(strips))})
+                    continue
+                matches_ref[k] = True
+                # (2) away from non-periodic boundaries the bc must not matter
+                if not strips:
+                    ref = ref_interp(axes, comps, p)
+                    if ref is not None and any(far(r - e, TOL * scale) for r, e in zip(rv, ref)):
+                        ctx.monitor_fail(leg, pcase, rv, ref, "bc changes the interpolant between cell centres",
+                                         key={"op": leg})
+                        continue
+                # (3) imposed values only: never outside the range of the data and the boundary values
+                if all(sides[ax][1 if up else 0][0] == "value" for ax, up in strips):
+                    vals_bc = [sides[ax][1 if up else 0][1] for ax, up in strips]
+                    for c, r in zip(comps, rv):
+                        lo_r, hi_r = min(list(c) + vals_bc), max(list(c) + vals_bc)
+                        if not (lo_r - btol <= r <= hi_r + btol):
+                            corner = len(strips) >= 2
+                            ctx.monitor_fail(leg, pcase, r, [lo_r, hi_r],
+                                             "interpolation with bc leaves the range of the data and the imposed boundary "
+                                             "values" + (" in a corner square (corner ghost cell = mean of the adjacent "
+                                                         "ghost cells)" if corner else ""),
+                                             key=dict(KNOWN_CORNER, op=leg) if corner else {"op": leg, "symptom": "range"})
+                            break
+            # (4) the literal clause: along the inward normal the interpolant approaches the imposed boundary value
+            # linearly (imposed derivative: keeps that slope) - from the value f1 it has on the first / last layer
+            # of cell centres (t = 1) to the face (t -> 0)
+            first = {pr["line"]: len(pts) + j for j, pr in enumerate(probes) if pr["t"] == 1.0}
+            for j, pr in enumerate(probes):
+                k = len(pts) + j
+                rv, r1 = real_all[k], real_all[first[pr["line"]]]
+                if isinstance(rv, str) or isinstance(r1, str):
+                    continue  # reported above
+                ctx.monitor_evals += 1
+                ax, upper, t = pr["axis"], pr["upper"], pr["t"]
                 kind, const = sides[ax][1 if upper else 0]
-                cidx = list(idx)
-                cidx[ax] = axes[ax][0] - 1 if upper else 0
-                flat = 0
-                for i, n in zip(cidx, shape):
-                    flat = flat * n + i
                 dxa = axes[ax][3]
-                exp = []
-                for c in comps:
-                    cell = c[flat]
-                    if kind == "value":
-                        exp.append(const + t * (cell - const))
-                    else:  # outward derivative `const`: the interpolant continues with that slope
-                        exp.append(cell + const * (dxa / 2) * (1 - t))
-                ctx.hist("bc_probe", f"{kind}/{'upper' if upper else 'lower'}")
-                if isinstance(rv, str) or any(far(r - e, TOL * max(fscale, abs(const) * dxa) * 4) for r, e in zip(rv, exp)):
-                    ctx.monitor_fail(leg, small_case(spec, leg, point=p, bc=spec["bc"], probe=[ax, upper, t, idx]),
-                                     rv, exp, f"interpolation with bc does not approach the imposed boundary {kind} linearly",
-                                     key={"op": leg, "bc_kind": kind})
+                strips = strip_axes(axes, pr["p"])
+                corner = any(k2 != ax for k2, _up in strips)  # a second non-periodic axis within half a cell
+                ctx.hist("bc_probe", f"{kind}/{'upper' if upper else 'lower'}/{'corner' if corner else pr['cls']}")
+                pcase = small_case(spec, leg, point=pr["p"], bc=spec["bc"], fill=spec["fill"] if with_fill else None,
+                                   probe={"axis": ax, "upper": upper, "t": t, "tang": pr["tang"], "cls": pr["cls"]})
+                ptol = TOL * max(fscale, abs(const) * dxa) * 4
+                if pr["cls"] == "centre" and t == 1.0:
+                    # on a cell centre the interpolant is the cell value, with or without bc
+                    cidx = [int(x) for x in pr["tang"]]
+                    cidx[ax] = axes[ax][0] - 1 if upper else 0
+                    flat = 0
+                    for i, n in zip(cidx, shape):
+                        flat = flat * n + i
+                    cells = [c[flat] for c in comps]
+                    if any(far(r - e, ptol) for r, e in zip(rv, cells)):
+                        ctx.monitor_fail(leg, pcase, rv, cells, "value at a cell centre differs from the cell value (bc mode)",
+                                         key={"op": leg, "bc_kind": kind})
+                    continue
+                if kind == "value":
+                    exp = [const + t * (f1 - const) for f1 in r1]
+                else:  # outward derivative `const`: the interpolant continues with that slope
+                    exp = [f1 + const * (dxa / 2) * (1 - t) for f1 in r1]
+                if any(far(r - e, ptol) for r, e in zip(rv, exp)):
+                    documented = corner and matches_ref.get(k) and matches_ref.get(first[pr["line"]])
+                    ctx.monitor_fail(leg, pcase, rv, exp,
+                                     f"interpolation with bc does not approach the imposed boundary {kind} linearly"
+                                     + (" in a corner square (corner ghost cell = mean of the adjacent ghost cells)"
+                                        if documented else ""),
+                                     key=dict(KNOWN_CORNER, op=leg, bc_kind=kind) if documented
+                                     else {"op": leg, "bc_kind": kind})
 
             def cb(st, val, leg=leg, real_all=real_all, with_fill=with_fill):
                 if st != "ok":
@@ -1015,51 +1409,79 @@ def evaluate(ctx, ev, spec, axes, meta, sides, res):
                     if not same_vals(mv, rv, fscale, False):
                         ctx.disagree(leg, small_case(spec, leg, point=allp[k], bc=spec["bc"],
                                                      fill=spec["fill"] if with_fill else None),
-                                     mv, rv, "interpolate(bc=..) differs from interpN in ghost mode")
-            ev.ask("c16.interp", req_interp(axes, fshape, full, allp, ghost=True,
-                                            fill=spec["fill"] if with_fill else None), cb)
+                                     mv, rv, "interpolate(bc=..) differs from interpN in ghost mode on the padded "
+                                     "array defined by the conditions")
+            # the model works on the independently padded array, not on the ghost cells the real code produced
+            ev.ask("c16.interp", req_interp(axes, fshape, [[float(v) for v in a.reshape(-1)] for a in refpad], allp,
+                                            ghost=True, fill=spec["fill"] if with_fill else None), cb)
 
     # ---------------- interpolate_to_grid ---------------------------------------------------
     if "to_grid" in res:
         gp = res["grid2_points"]
+        # the new cell centres in the coordinates of the source grid, from the grid descriptions alone
+        gp_ref = target_points(gs, spec["grid2"])
+        ctx.monitor_evals += 1
+        if len(gp) != len(gp_ref) or any(far(x - y, 1e-12 * (1 + abs(y))) for pa, pb in zip(gp, gp_ref) for x, y in zip(pa, pb)):
+            ctx.monitor_fail("to_grid_points", small_case(spec, "to_grid_points", grid2=spec["grid2"]), gp[:6], gp_ref[:6],
+                             "interpolate_to_grid does not evaluate at the centres of the new cells", key={"op": "to_grid_points"})
+        route = "cartesian-from-" + gs["cls"] if spec["grid2"]["cls"] != gs["cls"] else "same-class"
         for name, real in res["to_grid"].items():
             leg = "to_grid_" + name
             ctx.count(count_key(spec, leg, grid2=spec["grid2"]), nontrivial=nontrivial_field, leg=f"{leg}/{mode}")
-            where = [classify(axes, p) for p in gp]
+            where = [classify(axes, p) for p in gp_ref]
             if any(w == "boundary" for w in where):
                 ctx.hist("to_grid", "skipped-boundary-point")
                 continue
             any_out = any(w == "outside" for w in where)
-            ctx.hist("to_grid", name + ("/outside" if any_out else "/inside"))
+            ctx.hist("to_grid", name + ("/outside" if any_out else "/inside") + "/" + route)
             ctx.monitor_evals += 1
             case = small_case(spec, leg, grid2=spec["grid2"], fill=spec["fill"], bc=spec["bc"] if name == "bc" else None)
+            ghost = name == "bc"
             if name == "nofill":
-                refs = [ref_interp(axes, comps, p) for p in gp]
+                refs = [ref_interp(axes, comps, p) for p in gp_ref]
                 if any_out:
                     if real != "ERR:DomainError":
                         ctx.monitor_fail(leg, case, real, "DomainError", "interpolate_to_grid beyond the domain must raise",
                                          key={"op": leg})
-                elif isinstance(real, str) or any(far(r - e[0], TOL * scale) for r, e in zip(real, refs)):
+                elif isinstance(real, str) or len(real) != len(refs) or \
+                        any(far(r - e[0], TOL * scale) for r, e in zip(real, refs)):
                     ctx.monitor_fail(leg, case, real, [e[0] for e in refs],
                                      "interpolate_to_grid differs from the multilinear interpolant at the new cell centres",
                                      key={"op": leg})
             elif name == "fill":
-                refs = [ref_interp(axes, comps, p) for p in gp]
+                refs = [ref_interp(axes, comps, p) for p in gp_ref]
                 exp = [spec["fill"] if e is None else e[0] for e in refs]
-                if isinstance(real, str) or any(far(r - e, TOL * scale) for r, e in zip(real, exp)):
+                if isinstance(real, str) or len(real) != len(exp) or any(far(r - e, TOL * scale) for r, e in zip(real, exp)):
                     ctx.monitor_fail(leg, case, real, exp, "interpolate_to_grid(fill=..) differs from interpolant / fill",
                                      key={"op": leg})
-            ghost = name == "bc"
-            data = res["to_grid_full"] if ghost else comps
-            shp = res["full_shape"] if ghost else shape
-            if ghost and not all(math.isfinite(v) for c in data for v in c):
-                ctx.monitor_fail(leg, case, "non-finite ghost cells after interpolate_to_grid(bc=..)",
-                                 "all ghost cells set from the conditions",
-                                 "interpolation with bc must use ghost cells (incl. corners) set from the imposed conditions",
-                                 key={"op": leg, "what": "undefined ghost cells"})
-                data = [[v if math.isfinite(v) else 0.0 for v in c] for c in data]
+            else:  # bc: the interpolant of the data extended by the ghost cells the conditions define, fill outside
+                refpad = pad_reference(axes, comps, sides)
+                refs = [ref_interp_ghost(axes, refpad, p) for p in gp_ref]
+                exp = [spec["fill"] if e is None else e[0] for e in refs]
+                gtol = TOL * scale_of([[float(v) for v in refpad[0].reshape(-1)]], spec["fill"] or 0.0)
+                if isinstance(real, str) or len(real) != len(exp) or any(far(r - e, gtol) for r, e in zip(real, exp)):
+                    ctx.monitor_fail(leg, case, real, exp, "interpolate_to_grid(bc=..) differs from the interpolant of the data "
+                                     "extended by the ghost cells which the imposed conditions define / fill",
+                                     key={"op": leg, "symptom": "ghost-cell-interpolant"})
+                else:
+                    for p, r in zip(gp_ref, real):
+                        strips = strip_axes(axes, p) if classify(axes, p) == "inside" else None
+                        if strips is None or not all(sides[ax][1 if up else 0][0] == "value" for ax, up in strips):
+                            continue
+                        vals_bc = [sides[ax][1 if up else 0][1] for ax, up in strips]
+                        lo_r, hi_r = min(list(comps[0]) + vals_bc), max(list(comps[0]) + vals_bc)
+                        if not (lo_r - gtol <= r <= hi_r + gtol):
+                            corner = len(strips) >= 2
+                            ctx.monitor_fail(leg, dict(case, point=p), r, [lo_r, hi_r],
+                                             "interpolation with bc leaves the range of the data and the imposed boundary "
+                                             "values" + (" in a corner square (corner ghost cell = mean of the adjacent "
+                                                         "ghost cells)" if corner else ""),
+                                             key=dict(KNOWN_CORNER, op=leg) if corner else {"op": leg, "symptom": "range"})
+                            break
+            data = [[float(v) for v in a.reshape(-1)] for a in pad_reference(axes, comps, sides)] if ghost else comps
+            shp = [n + 2 for n in shape] if ghost else shape
 
-            def cb(st, val, leg=leg, real=real, case=case):
+            def cb(st, val, leg=leg, real=real, case=case, data=data):
                 if st != "ok":
                     ctx.disagree(leg, case, "model error " + str(val), None)
                     return
@@ -1072,7 +1494,7 @@ def evaluate(ctx, ev, spec, axes, meta, sides, res):
                         all(abs(float(fr(m)) - r) <= TOL * scale_of(data, spec["fill"] or 0) for m, r in zip(mvals, real))
                 if not ok:
                     ctx.disagree(leg, case, mvals, real, "interpolate_to_grid differs from interpN at the new cell centres")
-            ev.ask("c16.interp", req_interp(axes, shp, data, gp, ghost=ghost, fill=None if name == "nofill" else spec["fill"]), cb)
+            ev.ask("c16.interp", req_interp(axes, shp, data, gp_ref, ghost=ghost, fill=None if name == "nofill" else spec["fill"]), cb)
 
     # ---------------- insert ----------------------------------------------------------------
     vol = res["vol"]
@@ -1099,6 +1521,8 @@ def evaluate(ctx, ev, spec, axes, meta, sides, res):
                                              "insert at an interior point does not change the integral by the amount",
                                              key={"op": leg, "grid_class": gs["cls"]})
                             break
+            elif where == "boundary":
+                pass  # membership ill-conditioned: correspondence only
             elif leg == "insert_comp":
                 ctx.monitor_evals += 1
                 if real != "ERR:DomainError":
@@ -1127,6 +1551,15 @@ def evaluate(ctx, ev, spec, axes, meta, sides, res):
                                 else far(float(fr(m)) - r, TOL * sc):
                             ctx.disagree(leg, case, [float(fr(x)) for x in val["data"]], ra,
                                          f"insert: new data differs (component {c})")
+                            return
+                    # the integral of the model (`integral` = sum data*vol) against `field.integral` of the real field
+                    isc = TOL * (sum(abs(v) * w for v, w in zip(before, vol)) + abs(amount[c]) + 1.0)
+                    for nm, mi, ri in (("before", val["before"], real["int_before"][c]),
+                                       ("after", val["after"], real["int_after"][c])):
+                        if far(float(fr(mi)) - ri, isc):
+                            ctx.disagree(leg, case, float(fr(mi)), ri,
+                                         f"insert: field.integral {nm} the insertion differs from the model's integral "
+                                         f"(component {c})")
                             return
             ev.ask("c16.insert", req_insert(axes, vol, fs["comps"], p, amount,
                                             "interp" if leg == "insert" else "comp"), cb)
@@ -1187,6 +1620,15 @@ def evaluate_ghost_inserter(ctx, ev, spec, axes, res):
                     ctx.disagree("insert_comp_ghost", case, [float(fr(x)) for x in val["data"]], fa,
                                  f"ghost inserter: new padded data differ (component {c})")
                     return
+                # integrals over the valid cells: model `integral` against `field.integral`
+                isc = TOL * (sum(abs(v) * w for v, w in zip(fs["comps"][c], vol)) + abs(amount[c]) * (1 + max(vol) / min(vol)) + 1.0)
+                for nm, mi, ri in (("before", val["before"], real["int_before"][c]),
+                                   ("after", val["after"], real["int_after"][c])):
+                    if far(float(fr(mi)) - ri, isc):
+                        ctx.disagree("insert_comp_ghost", case, float(fr(mi)), ri,
+                                     f"ghost inserter: field.integral {nm} the insertion differs from the model's integral "
+                                     f"(component {c})")
+                        return
         if isinstance(real, str):
             # the real call raised before the padded array was recorded: rebuild it (zeros in the ghost layer)
             shape = [a[0] for a in axes]
@@ -1226,6 +1668,245 @@ def evaluate_ghost_inserter(ctx, ev, spec, axes, res):
 
 
 # ==========================================================================================
+# malformed points, complex and integer data
+# ==========================================================================================
+def evaluate_extra(ctx, ev, spec, axes, meta, sides, res):
+    gs, fs = spec["grid"], spec["field"]
+    comps = fs["comps"]
+    pts = spec["points"]
+    shape = [a[0] for a in axes]
+    mode = "J" if res["jit"] else "S"
+    ncomp = len(comps)
+
+    # ---------------- malformed points: an error class, never a number ------------------------
+    for item, real in zip(spec.get("malformed", []), res.get("malformed", [])):
+        ctx.count(count_key(spec, "malformed", point=str(item["point"])), nontrivial=False, leg=f"malformed/{mode}")
+        ctx.hist("malformed", item["kind"] + ("/periodic-axis" if item.get("periodic") else ""))
+        case = small_case(spec, "malformed", malformed=item, bc=spec["bc"], fill=spec["fill"])
+        for name in ("interp", "interp_fill", "interp_bc", "insert"):
+            ctx.monitor_evals += 1
+            rv = real[name]
+            if item["kind"] in ("too_long", "too_short"):
+                ok, expected = rv == "ERR:DimensionError", "DimensionError"
+            elif name == "insert":
+                # a non-finite coordinate: an error; on a periodic axis the interpreted insert writes NaN into
+                # the support cells instead (recorded as an observation, no clause of the property covers it)
+                ok, expected = isinstance(rv, str) or not all(math.isfinite(v) for v in rv), "an error"
+                if not isinstance(rv, str):
+                    ctx.hist("observation", "interpreted insert at a NaN/inf coordinate of a periodic axis writes NaN "
+                                            "into the field instead of raising")
+            elif name == "interp_fill":
+                # rejected like any point outside (fill value), or an error / NaN where the coordinate is wrapped
+                ok = isinstance(rv, str) or all(v == spec["fill"] or not math.isfinite(v) for v in rv)
+                expected = "the fill value or an error"
+            else:
+                ok = isinstance(rv, str) or not any(math.isfinite(v) for v in rv)
+                expected = "an error"
+            if not ok:
+                ctx.monitor_fail("malformed", dict(case, call=name), rv, expected,
+                                 "a malformed point (wrong number of coordinates / non-finite coordinate) is answered "
+                                 "with a number", key={"op": "malformed", "call": name, "kind": item["kind"]})
+        if item["kind"] in ("too_long", "too_short"):
+            def cb(st, val, real=real, case=case):
+                ctx.impl_traces += 1
+                if st != "ok" or any(v is not None for v in val[0]):
+                    ctx.disagree("malformed", case, val, real["interp"], "interpN accepts a point of the wrong length")
+            ev.ask("c16.interp", req_interp(axes, shape, comps, [item["point"]]), cb)
+
+    # ---------------- complex data -----------------------------------------------------------------
+    if "cplx" in res:
+        o = res["cplx"]
+        imag = spec["imag"]
+        cpts = pts[:spec.get("cplx_points", len(pts))]
+        cfill = o["fill"]
+        scale = scale_of(comps + imag, max(abs(cfill[0]), abs(cfill[1])))
+        ctx.hist("dtype", o["dtype"] + "/" + mode)
+        for leg, with_fill in (("cplx_interp", False), ("cplx_interp_fill", True)):
+            real_all = o.get("interp_fill" if with_fill else "interp")
+            if real_all is None:
+                continue
+            if isinstance(real_all, str):
+                ctx.disagree(leg, small_case(spec, leg, imag=imag), "values", real_all, "interpolate of a complex field failed")
+                continue
+            for k, p in enumerate(cpts):
+                ctx.count(count_key(spec, leg, point=p), nontrivial=meta[k]["where"] == "inside", leg=f"{leg}/{mode}")
+                if meta[k]["where"] == "boundary":
+                    continue
+                ctx.monitor_evals += 1
+                rv = real_all[k]
+                case = small_case(spec, leg, point=p, imag=imag, fill=spec["fill"])
+                rre, rim = ref_interp(axes, comps, p), ref_interp(axes, imag, p)
+                if rre is None:
+                    ok = (not isinstance(rv, str) and all(v == cfill for v in rv)) if with_fill else rv == "ERR:DomainError"
+                    exp = cfill if with_fill else "DomainError"
+                else:
+                    exp = [[a, b] for a, b in zip(rre, rim)]
+                    ok = not isinstance(rv, str) and len(rv) == len(exp) and \
+                        not any(far(v[0] - e[0], TOL * scale) or far(v[1] - e[1], TOL * scale) for v, e in zip(rv, exp))
+                if not ok:
+                    ctx.monitor_fail(leg, case, rv, exp, "interpolation of a complex field is not the multilinear interpolant "
+                                     "of its real and imaginary parts (fill / error outside)", key={"op": leg})
+
+            def cb(st, val, leg=leg, real_all=real_all, with_fill=with_fill):
+                if st != "ok":
+                    ctx.disagree(leg, small_case(spec, leg, imag=imag), "model error " + str(val), None)
+                    return
+                for k, (mv, rv) in enumerate(zip(val, real_all)):
+                    ctx.impl_traces += 1
+                    if isinstance(rv, str):
+                        ok = rv == "ERR:DomainError" and all(m is None for m in mv)
+                    else:
+                        ok = all(m is not None for m in mv) and not any(
+                            far(float(fr(mv[c])) - rv[c][0], TOL * scale) or far(float(fr(mv[ncomp + c])) - rv[c][1], TOL * scale)
+                            for c in range(ncomp))
+                    if not ok:
+                        ctx.disagree(leg, small_case(spec, leg, point=cpts[k], imag=imag), mv, rv,
+                                     "interpolate of a complex field differs from interpN on real and imaginary part")
+            rq = req_interp(axes, shape, comps + imag, cpts)
+            if with_fill:
+                rq["fill"] = [q(cfill[0])] * ncomp + [q(cfill[1])] * ncomp
+            ev.ask("c16.interp", rq, cb)
+        vol = res["vol"]
+        for (p, amount), item in zip(spec["inserts"][:3], o["insert"]):
+            if classify(axes, p) != "inside":
+                continue
+            ctx.count(count_key(spec, "cplx_insert", point=p, amount=amount), nontrivial=True, leg=f"cplx_insert/{mode}")
+            ctx.monitor_evals += 1
+            case = small_case(spec, "cplx_insert", point=p, amount=amount, imag=imag)
+            am = [[a, -0.5 * a] for a in amount]
+            bad = None
+            for which in ("interp", "comp"):
+                r = item[which]
+                if isinstance(r, str):
+                    bad = (which + ": " + r, "amount inserted")
+                    break
+                for c in range(len(amount)):
+                    for part in (0, 1):
+                        ch = r["int_after"][c][part] - r["int_before"][c][part]
+                        if far(ch - am[c][part], TOL * (abs(r["int_before"][c][part]) + abs(amount[c]) + 1.0)):
+                            bad = ({"inserter": which, "change": ch}, am[c][part])
+            if bad is None:
+                sc = scale + max(abs(x) for x in amount) / min(vol)
+                if any(far(x[0] - y[0], TOL * sc) or far(x[1] - y[1], TOL * sc)
+                       for x, y in zip(item["interp"]["after"], item["comp"]["after"])):
+                    bad = (item["comp"]["after"], item["interp"]["after"])
+            if bad:
+                ctx.monitor_fail("cplx_insert", case, bad[0], bad[1], "inserting a complex amount at an interior point does "
+                                 "not change the integral by the amount / compiled differs from interpreted",
+                                 key={"op": "cplx_insert"})
+
+    # ---------------- integer data -----------------------------------------------------------------
+    if "intdata" in res:
+        o = res["intdata"]
+        ints = spec["ints"]
+        ipts = pts[:spec.get("cplx_points", len(pts))]
+        scale = scale_of(ints, spec["fill"] or 0.0)
+        for variant in ("converted", "int"):
+            ctx.hist("dtype", str(o.get(variant + "_dtype")) + "/" + variant + "/" + mode)
+            for leg, with_fill in ((f"intdata_{variant}", False), (f"intdata_{variant}_fill", True)):
+                real_all = o.get(variant + ("_fill" if with_fill else ""))
+                if real_all is None:
+                    continue
+                if isinstance(real_all, str):
+                    ctx.monitor_evals += 1
+                    ctx.monitor_fail(leg, small_case(spec, leg, ints=ints), real_all, "values",
+                                     "a field of integer data cannot be interpolated", key={"op": leg})
+                    continue
+                for k, p in enumerate(ipts):
+                    ctx.count(count_key(spec, leg, point=p), nontrivial=meta[k]["where"] == "inside", leg=f"{leg}/{mode}")
+                    if meta[k]["where"] == "boundary":
+                        continue
+                    ctx.monitor_evals += 1
+                    rv = real_all[k]
+                    ref = ref_interp(axes, ints, p)
+                    if ref is None:
+                        ok = (not isinstance(rv, str) and all(v == spec["fill"] for v in rv)) if with_fill \
+                            else rv == "ERR:DomainError"
+                        exp = spec["fill"] if with_fill else "DomainError"
+                    else:
+                        exp = ref
+                        ok = not isinstance(rv, str) and len(rv) == len(ref) and \
+                            not any(far(r - e, TOL * scale) for r, e in zip(rv, ref))
+                    if not ok:
+                        key = {"op": leg}
+                        if variant == "int":
+                            key = {"site": "NumbaBackend.make_interpolator", "dtype": "integer",
+                                   "symptom": "result-and-fill-truncated-to-integer", "op": leg}
+                        ctx.monitor_fail(leg, small_case(spec, leg, point=p, ints=ints, fill=spec["fill"]), rv, exp,
+                                         "interpolation of integer data is not the multilinear interpolant (a real number) "
+                                         "/ the fill value", key=key)
+                        break
+
+
+# ==========================================================================================
+# compiled against interpreted (the same case in both execution modes)
+# ==========================================================================================
+def _flat_numbers(x, path=""):
+    """(path, number | string) leaves of a worker result"""
+    if isinstance(x, dict):
+        for k in sorted(x, key=str):
+            yield from _flat_numbers(x[k], f"{path}/{k}")
+    elif isinstance(x, (list, tuple)):
+        for i, v in enumerate(x):
+            yield from _flat_numbers(v, f"{path}[{i}]")
+    else:
+        yield path, x
+
+
+def evaluate_jit_vs_source(ctx, spec, axes, res_j, res_s):
+    """the compiled interpolators / inserters agree with the interpreted ones: the same operations on the same
+    inputs in both execution modes, every number of the result compared (relative 1e-12 of the scale of the data:
+    the compiler may fuse / reorder floating-point operations)"""
+    if isinstance(res_j, str) or isinstance(res_s, str):
+        return
+    fs = spec["field"]
+    scale = scale_of(fs["comps"], spec["fill"] or 0.0)
+    amax = max([abs(a) for _p, am in spec["inserts"] for a in am] or [0.0])
+    scale = scale + amax / min(res_s["vol"])
+    for op in spec["ops"]:
+        if op not in res_j or op not in res_s:
+            continue
+        ctx.monitor_evals += 1
+        ctx.count(count_key(spec, "jit_vs_source", what=op), nontrivial=fs["kind"] != "constant", leg="jit_vs_source")
+        ctx.hist("compiled", f"{op}/{spec['grid']['cls']}/{len(axes)}ax" + ("/per" if any(a[1] for a in axes) else ""))
+        oj, os_ = res_j[op], res_s[op]
+        if op == "intdata" and (os_.get("int_result_kind", "f") in "iu" or oj.get("int_result_kind", "f") in "iu"):
+            # with an integer dtype the unchanged library truncates the interpolant (reported by the leg intdata_int);
+            # truncated values are not compared between the modes (a value within round-off of an integer may be cut
+            # either way) - the variant that is converted to float is
+            ctx.hist("observation", "integer-dtype results are truncated: not compared between compiled and interpreted")
+            oj = {k: v for k, v in oj.items() if not k.startswith("int")}
+            os_ = {k: v for k, v in os_.items() if not k.startswith("int")}
+        lj, ls = list(_flat_numbers(oj)), list(_flat_numbers(os_))
+        bad = None
+        if len(lj) != len(ls):
+            bad = ("structure", len(lj), len(ls))
+        else:
+            for (pj, vj), (ps, vs) in zip(lj, ls):
+                if pj != ps:
+                    bad = (pj, vj, vs)
+                elif isinstance(vj, str) or isinstance(vs, str) or vj is None or vs is None:
+                    if vj != vs:
+                        bad = (pj, vj, vs)
+                elif isinstance(vj, bool) or isinstance(vs, bool):
+                    if vj != vs:
+                        bad = (pj, vj, vs)
+                elif not (abs(vj - vs) <= 1e-12 * scale) and not (vj != vj and vs != vs):
+                    bad = (pj, vj, vs)
+                if bad:
+                    break
+        if bad:
+            ctx.monitor_fail("jit_vs_source", small_case(spec, "jit_vs_source", what=op, worker_input=_replayable_spec(spec)),
+                             {"where": bad[0], "compiled": bad[1]}, {"interpreted": bad[2]},
+                             f"compiled and interpreted {op} disagree", key={"op": "jit_vs_source", "what": op})
+
+
+def _replayable_spec(spec):
+    """the complete worker input of a case (JSON-able), so that a replay performs exactly the recorded operations"""
+    return json.loads(json.dumps(spec))
+
+
+# ==========================================================================================
 # entry points
 # ==========================================================================================
 class NullEval:
@@ -1248,8 +1929,8 @@ def run_workers(specs, jit, workdir, procs=None):
     import os
 
     wd = os.path.join(workdir, "j" if jit else "s")
-    return run_many("harness.c16", "work", specs, env=J_ENV if jit else S_ENV,
-                    procs=procs or (16 if jit else 8), workdir=wd)
+    # compiled and source-mode workers run at the same time: 8 + 8 processes
+    return run_many("harness.c16", "work", specs, env=J_ENV if jit else S_ENV, procs=procs or 8, workdir=wd)
 
 
 def eval_all(ctx, ev, cases, results):
@@ -1257,6 +1938,11 @@ def eval_all(ctx, ev, cases, results):
         evaluate(ctx, ev, spec, axes, meta, sides, res)
         if not isinstance(res, str):
             evaluate_ghost_inserter(ctx, ev, spec, axes, res)
+            evaluate_extra(ctx, ev, spec, axes, meta, sides, res)
+
+
+def gen_cases(rng, n, jit=False):
+    return [gen_case(rng, kind=GRID_KINDS[i % len(GRID_KINDS)], jit=jit, index=i) for i in range(n)]
 
 
 def run(ctx):
@@ -1266,12 +1952,12 @@ def run(ctx):
 
     rng = ctx.rng
     n_s = ctx.budget(450, 6000)
-    n_j = ctx.budget(16, 160)
+    n_j = ctx.budget(18, 162)  # multiples of 18: every grid kind with the plain and with the ghost-cell inserter
     s_cases = lattice_cases(rng, ctx.tier == "thorough")
     ctx.note(f"{len(s_cases)} lattice-sweep cases (small dyadic grids, all ties, exact comparison) + {n_s} random cases "
-             f"in source semantics, {n_j} random cases compiled")
-    s_cases += [gen_case(rng, kind=GRID_KINDS[i % len(GRID_KINDS)]) for i in range(n_s)]
-    j_cases = [gen_case(rng, kind=GRID_KINDS[i % len(GRID_KINDS)], jit=True) for i in range(n_j)]
+             f"in source semantics, {n_j} random cases compiled (each of them also in source semantics and compared)")
+    s_cases += gen_cases(rng, n_s)
+    j_cases = gen_cases(rng, n_j, jit=True)
     # compiled mode runs in the background (compilation dominates), source mode + model meanwhile
     jbox = {}
 
@@ -1298,6 +1984,8 @@ def run(ctx):
             t2 = time.time()
             ev.finish()
             timing.append(f"chunk {i}: workers {t1 - t0:.1f}s, evaluate {t2 - t1:.1f}s, model {time.time() - t2:.1f}s ({nreq} requests)")
+        # the compiled cases once more in source semantics (same operations, same inputs)
+        js_results = run_workers([c[0] for c in j_cases], False, ctx.workdir)
     finally:
         th.join()
     timing.append(f"compiled workers done after {time.time() - tstart:.1f}s")
@@ -1307,6 +1995,14 @@ def run(ctx):
     ev = Eval(ctx, LeanBatch(ctx.workdir))
     eval_all(ctx, ev, j_cases, jbox["res"])
     ev.finish()
+    for (spec, axes, _meta, _sides), rj, rs in zip(j_cases, jbox["res"], js_results):
+        if isinstance(rs, str):
+            ctx.disagree("worker", small_case(spec, "worker"), "worker ran", rs, "the source-mode run of a compiled case raised")
+        elif not isinstance(rj, str) and rj["jit"] and not rs["jit"]:
+            evaluate_jit_vs_source(ctx, spec, axes, rj, rs)
+        elif not isinstance(rj, str):
+            ctx.disagree("worker", small_case(spec, "worker"), "compiled / interpreted", [rj["jit"], rs["jit"]],
+                         "execution modes of the two runs are not compiled / interpreted")
     # smallest grids first: the replay written for a group is its first failure
     ctx.monitor_failures.sort(key=lambda m: (len(m["case"]["field"]["comps"]) * len(m["case"]["field"]["comps"][0])))
     ctx.disagreements.sort(key=lambda d: (len(d["case"]["field"]["comps"]) * len(d["case"]["field"]["comps"][0]))
@@ -1334,6 +2030,10 @@ class _Collect:
                                       "what": what, "key": key or {}})
 
 
+class CannotReplay(Exception):
+    """the recorded case cannot be re-run (said explicitly; the replay then counts as failed)"""
+
+
 def search(ctx, broken):
     """failing-input search after a broken tie: the monitors (which contain an independent reference
     interpolant and the conservation statement) on the disagreeing cases and on a larger fresh sample"""
@@ -1343,16 +2043,23 @@ def search(ctx, broken):
     for d in broken[:20]:
         c = d.get("case") if isinstance(d, dict) else None
         if isinstance(c, dict) and "grid" in c:
-            replay_case(col, c, ctx.workdir)
+            try:
+                replay_case(col, c, ctx.workdir)
+            except CannotReplay:
+                continue
             if col.monitor_failures:
                 return col.monitor_failures
     # (b) fresh sample, source semantics; (c) compiled, when the compiled leg was involved
-    cases = [gen_case(rng, kind=GRID_KINDS[i % len(GRID_KINDS)]) for i in range(1500)]
+    cases = gen_cases(rng, 1500)
     eval_all(col, NullEval(), cases, run_workers([c[0] for c in cases], False, ctx.workdir))
     if not col.monitor_failures and any(isinstance(d, dict) and isinstance(d.get("case"), dict) and d["case"].get("jit")
                                         for d in broken):
-        cases = [gen_case(rng, kind=GRID_KINDS[i % len(GRID_KINDS)], jit=True) for i in range(32)]
-        eval_all(col, NullEval(), cases, run_workers([c[0] for c in cases], True, ctx.workdir))
+        cases = gen_cases(rng, 36, jit=True)
+        specs = [c[0] for c in cases]
+        rj, rs = run_workers(specs, True, ctx.workdir), run_workers(specs, False, ctx.workdir)
+        eval_all(col, NullEval(), cases, rj)
+        for (spec, axes, _m, _s), a, b in zip(cases, rj, rs):
+            evaluate_jit_vs_source(col, spec, axes, a, b)
     col.monitor_failures.sort(key=lambda m: len(m["case"]["field"]["comps"]) * len(m["case"]["field"]["comps"][0]))
     return col.monitor_failures
 
@@ -1386,10 +2093,28 @@ def bc_sides(gs, axes, bc):
 
 
 def replay_case(col, c, workdir):
-    """re-run one recorded case (grid, field, operation, point) on the real code and evaluate the monitors"""
+    """re-run one recorded case - same grid, field, operation, point(s), boundary conditions, fill value and
+    execution mode (compiled or source semantics) - on the real code and evaluate the monitors on the result.
+    Raises CannotReplay when the record does not determine the operations or a worker crashes."""
+    if not isinstance(c, dict) or "grid" not in c or "field" not in c or "op" not in c:
+        raise CannotReplay("the record has no (grid, field, op)")
     gs, fs = c["grid"], c["field"]
     axes = grid_axes(gs)
     op = c["op"]
+    jit = bool(c.get("jit"))
+    if op == "jit_vs_source":
+        spec = c.get("worker_input")
+        if not isinstance(spec, dict):
+            raise CannotReplay("no worker input recorded")
+        spec = dict(spec, ops=[c["what"]]) if c.get("what") in spec.get("ops", []) else spec
+        rj = run_workers([spec], True, workdir, procs=1)[0]
+        rs = run_workers([spec], False, workdir, procs=1)[0]
+        if isinstance(rj, str) or isinstance(rs, str):
+            raise CannotReplay(f"worker crashed: compiled {str(rj)[:300]} / interpreted {str(rs)[:300]}")
+        if not rj["jit"] or rs["jit"]:
+            raise CannotReplay("could not run one compiled and one interpreted worker")
+        evaluate_jit_vs_source(col, spec, axes, rj, rs)
+        return {"compiled": rj.get(c.get("what")), "interpreted": rs.get(c.get("what"))}
     p = c.get("point")
     pts = [p] if p is not None else []
     meta = []
@@ -1401,39 +2126,90 @@ def replay_case(col, c, workdir):
     sides = bc_sides(gs, axes, bc)
     probes = []
     if c.get("probe"):
-        ax, upper, t, idx = c["probe"]
-        probes, pts, meta = [(p, ax, upper, t, idx)], [], []
+        pr = c["probe"]
+        # the recorded probe and the point of its line on the first / last layer of cell centres (t = 1)
+        for t in ([pr["t"]] if pr["t"] == 1.0 else [pr["t"], 1.0]):
+            probes.append({"p": probe_point(axes, pr["tang"], pr["axis"], pr["upper"], t) if t != pr["t"] else p,
+                           "axis": pr["axis"], "upper": pr["upper"], "t": t, "tang": pr["tang"], "cls": pr["cls"], "line": 1})
+        pts, meta = [], []
     fill = c.get("fill")
     spec = {"grid": gs, "field": fs, "points": pts, "fill": 0.0 if fill is None else fill, "bc": bc, "probes": probes,
             "cell_points": [m["xs"] for m in meta], "inserts": [(p, c["amount"])] if "amount" in c else [],
-            "jit": bool(c.get("jit"))}
-    if op in ("interp", "interp_fill", "single_cc", "insert", "insert_comp"):
+            "jit": jit}
+    if op in ("interp", "interp_fill", "insert", "insert_comp"):
         spec["ops"] = [op]
+    elif op == "axis":
+        spec["ops"] = ["axis"]
+        if not pts and "coord" in c:  # correspondence record: one coordinate of one axis
+            pt = [a[2] + a[3] * a[0] / 2 for a in axes]
+            pt[c["axis"]] = c["coord"]
+            spec["points"], meta = [pt], [{"cls": "replay", "xs": [0.0] * len(axes), "where": classify(axes, pt),
+                                           "kinds": ["other"] * len(axes)}]
+    elif op == "single_cc":
+        if "cell_point" not in c:
+            raise CannotReplay("no cell coordinates recorded")
+        cp = c["cell_point"]
+        pt = [a[2] + (x + 0.5) * a[3] for x, a in zip(cp, axes)]
+        spec["ops"], spec["points"], spec["cell_points"] = ["single_cc"], [pt], [cp]
+        meta = [{"cls": "replay", "xs": cp, "where": classify(axes, pt), "kinds": [axis_kind(a[0], x) for a, x in zip(axes, cp)]}]
     elif op in ("interp_bc", "interp_bc_fill"):
+        if bc is None or not (pts or probes):
+            raise CannotReplay("no boundary condition / point recorded")
         spec["ops"] = ["interp_bc"]
         spec["bc_fills"] = [op == "interp_bc_fill"]
     elif op.startswith("to_grid_"):
+        if "grid2" not in c:
+            raise CannotReplay("no target grid recorded")
         spec["ops"] = ["to_grid"]
         spec["grid2"] = c["grid2"]
-        spec["to_grid_variants"] = [op[len("to_grid_"):]]
+        spec["points"], meta = [], []
+        spec["to_grid_variants"] = ["nofill"] if op == "to_grid_points" else [op[len("to_grid_"):]]
     elif op == "insert_vs_comp":
         spec["ops"] = ["insert", "insert_comp"]
     elif op == "insert_comp_ghost":
         spec["ops"] = ["insert", "insert_comp_ghost"]
+    elif op == "malformed":
+        spec["ops"], spec["malformed"] = ["malformed"], [c["malformed"]]
+        if bc is None:
+            raise CannotReplay("no boundary condition recorded")
+    elif op in ("cplx_interp", "cplx_interp_fill", "cplx_insert"):
+        spec["ops"], spec["imag"], spec["ints"] = ["cplx"], c["imag"], [[0] * len(cc) for cc in fs["comps"]]
+        if jit and op == "cplx_interp_fill":
+            raise CannotReplay("the batched complex interpolation with fill is only run in source semantics")
+    elif op.startswith("intdata_"):
+        spec["ops"], spec["ints"] = ["intdata"], c["ints"]
     else:
-        spec["ops"] = []
-    res = run_workers([spec], spec["jit"], workdir, procs=1)[0]
+        raise CannotReplay(f"operation {op!r} is not a replayable operation")
+    if spec["ops"] and spec["ops"][0] in ("interp", "interp_fill", "insert", "insert_comp", "cplx", "intdata") \
+            and not (pts or spec["points"] or spec["inserts"]):
+        raise CannotReplay("no point recorded")
+    res = run_workers([spec], jit, workdir, procs=1)[0]
+    if isinstance(res, str):
+        raise CannotReplay("the worker crashed: " + res[:600])
+    if bool(res["jit"]) != jit:
+        raise CannotReplay(f"execution mode differs from the record (recorded jit={jit})")
     eval_all(col, NullEval(), [(spec, axes, meta, sides)], [res])
     return res
 
 
 def replay(ctx, rep):
+    """re-run the recorded case on the real code, judge it with the monitors; False iff it (still) fails or
+    cannot be re-run"""
     col = _Collect()
-    res = replay_case(col, rep["case"], ctx.workdir)
-    shown = {k: v for k, v in res.items() if k not in ("vol", "data_full", "axis")} if isinstance(res, dict) else res
+    try:
+        if "case" not in rep:
+            raise CannotReplay("the file records no case (kind=%r)" % rep.get("kind"))
+        res = replay_case(col, rep["case"], ctx.workdir)
+    except CannotReplay as e:
+        print("cannot be replayed:", e)
+        return False
+    shown = {k: v for k, v in res.items() if k not in ("vol", "data_full", "axis", "to_grid_full")} if isinstance(res, dict) else res
     print("real code:", str(shown)[:1500])
+    if col.monitor_evals == 0:
+        print("cannot be replayed: no monitor applies to the recorded case")
+        return False
     for m in col.monitor_failures:
         print("monitor:", m["what"], "| observed", str(m["observed"])[:300], "| expected", str(m["expected"])[:300])
     if not col.monitor_failures:
-        print("monitor: holds")
+        print(f"monitor: holds ({col.monitor_evals} evaluations)")
     return not col.monitor_failures
